@@ -115,6 +115,10 @@ __strpd_std(const char *str, char **ep)
 			}
 			switch (*(sp = tmp)) {
 			case '\0':
+			case 'T':
+			case ' ':
+			case '\t':
+				/* end of text or a time of day to follow */
 				goto guess;
 			case 'B':
 				/* it's a bizda/YMDU before ultimo date */
